@@ -114,8 +114,24 @@ pub fn export_types<'tcx>(tcx: TyCtxt<'tcx>) -> (J, J, J, J) {
                         fields.push(J::obj(fv));
                     }
                 }
+                // size in bytes of types without type parameters (lifetimes erased): bounds the length of a Vec of them
+                let only_lifetimes = tcx
+                    .generics_of(did)
+                    .own_params
+                    .iter()
+                    .all(|p| matches!(p.kind, ty::GenericParamDefKind::Lifetime));
+                let size: i64 = if only_lifetimes {
+                    let t2 = tcx.erase_and_anonymize_regions(t);
+                    match tcx.layout_of(TypingEnv::fully_monomorphized().as_query_input(t2)) {
+                        Ok(l) => l.size.bytes() as i64,
+                        Err(_) => -1,
+                    }
+                } else {
+                    -1
+                };
                 adts.push(J::obj(vec![
                     ("path", J::s(def_path(tcx, did))),
+                    ("size", J::Int(size as i128)),
                     ("ty", J::s(key)),
                     ("span", span_json(tcx, tcx.def_span(did))),
                     ("attrs", J::Arr(attr_strings(tcx, hid))),
